@@ -175,11 +175,7 @@ func setterAlphabet(fine bool) []setOp {
 		if !fine {
 			return coarse
 		}
-		var out []int
-		for i := 0; i <= 80; i++ {
-			out = append(out, i)
-		}
-		return out
+		return fineLens
 	}
 	for i, n := range lens([]int{32, 32, 31}) {
 		n, seed := n, byte(0x10+i)
@@ -396,7 +392,7 @@ func init() {
 			ops := setterAlphabet(true)
 			full := c02Claims()[map[int]int{1: 2, 2: 3}[p]]
 			return func(c *choice.Ctx) {
-				start := c.Choose("start", 5)
+				start := c.Choose("start", 6)
 				populated := start
 				oi := c.Choose("op", len(ops))
 				var cl psatoken.IClaims
@@ -422,6 +418,19 @@ func init() {
 					} else {
 						cl, err = psatoken.DecodeClaimsFromJSON(wireJSON(a))
 					}
+				case 5: // profile 1: decoded from a token whose no-measurements flag carries 2
+					if p != 1 {
+						return
+					}
+					cp := *c02Claims()[1]
+					a = &cp
+					t := wireTree(a, true)
+					for i, pr := range t.Pairs {
+						if k, _ := pr[0].Int(); k == -75007 {
+							t.Pairs[i][1] = mcbor.U(2)
+						}
+					}
+					cl, err = psatoken.DecodeClaimsFromCBOR(mcbor.Encode(t))
 				case 4: // a struct literal: canonical profile and profile claim only, no component container
 					a = freshModel(p)
 					a.CompsNil = true
@@ -436,7 +445,8 @@ func init() {
 				c11stats.StateStr(fmt.Sprint(populated) + ops[oi].name)
 				c11stats.Trans.Add(1)
 				applySetter(p, cl, a, ops[oi], func(sig, format string, args ...any) { c.Failf(sig, format, args...) })
-				if len(c.Fails) == 0 && len(a.Check()) == 0 {
+				// (start 5 holds a flag value no setter writes: only the component setters are expected to normalise it)
+				if len(c.Fails) == 0 && len(a.Check()) == 0 && (start != 5 || (ops[oi].claim == "components" && ops[oi].accept(p))) {
 					if verr := cl.Validate(); verr != nil {
 						c.Failf(fmt.Sprintf("C11:complete-but-invalid:P%d:start-%d:%s", p, start, ops[oi].name), "every mandatory claim is set, the last setter succeeded, but Validate() fails: %v", verr)
 					} else if canon, cerr := canonicalBuild(a); cerr == nil {
@@ -551,7 +561,7 @@ func init() {
 			c11stats.Trans.Add(1)
 			switch field {
 			case 0, 1:
-				n := c.Choose("len", 81)
+				n := fineLens[c.Choose("len", len(fineLens))]
 				v := pat(n, 0x66)
 				want := n == 32 || n == 48 || n == 64
 				var err error
